@@ -612,7 +612,7 @@ def run(ctx):
               "fixstr/str8/str16/str32 key headers incl. non-minimal, duplicate and un-nameable keys, ≤ 300 bytes in quick) × 3–6 "
               "ApplyWithCondition calls each (0–4 ops of the eight kinds, kind-fitting and random/malformed paths and values, optional "
               "condition with same-class / NaN / foreign / malformed thresholds) + damaged bodies + a corpus of documented examples and "
-              "recorded witnesses + PatchFields end-to-end on every 40th document; an op line is non-trivial when it is a parse/ap/pf "
+              "recorded witnesses + PatchFields end-to-end (a corpus line per status code, then every 15th document); an op line is non-trivial when it is a parse/ap/pf "
               "line; distinct = distinct op lines; replies compared byte for byte with the Lean model, successes additionally checked "
               "against an independent generic-value reference in checks/C13.py"),
         samples=[{"op": c.ops[i][:200], "impl": c.impl[i][:120]} for i in range(1, min(len(c.ops), 7))],
